@@ -469,7 +469,8 @@ pub fn run(ws: &Ws, prop: &dyn Property, opts: &Opts) -> Result<i32, String> {
                         break;
                     }
                     let mut rng = Rng::derive(seed, prop.id(), index);
-                    let case = prop.generate(&mut rng, index, &opts.tier);
+                    let mut case = prop.generate(&mut rng, index, &opts.tier);
+                    vary_option_spellings(&mut case, &mut Rng::derive(seed ^ 0x5be1_1196, prop.id(), index));
                     let o = match prop.evaluate(&exec, &case) {
                         Ok(o) => o,
                         Err(e) => {
@@ -655,4 +656,26 @@ pub fn run(ws: &Ws, prop: &dyn Property, opts: &Opts) -> Result<i32, String> {
         wall
     );
     Ok(if unknown > 0 { 1 } else { 0 })
+}
+
+/// Every option has a short and a long spelling, and enumerated values ignore case: one spelling per option and per
+/// case (all scenarios of a case are spelled alike, so differential relations compare like with like).
+pub fn vary_option_spellings(case: &mut Case, rng: &mut Rng) {
+    let long_g = rng.chance(1, 3);
+    let long_o = rng.chance(1, 3);
+    let json = *rng.pick(&["json", "json", "JSON", "Json"]);
+    for s in case.scenarios.iter_mut() {
+        let mut i = 0;
+        while i < s.argv.len() {
+            let next_is_value = i + 1 < s.argv.len();
+            match s.argv[i].as_str() {
+                "-G" if long_g && next_is_value => s.argv[i] = "--generator".into(),
+                "-O" if long_o && next_is_value => s.argv[i] = "--output-dir".into(),
+                "--diagnostic-format" if next_is_value && s.argv[i + 1] == "json" => s.argv[i + 1] = json.into(),
+                _ => {}
+            }
+            // option values are never rewritten
+            i += if matches!(s.argv[i].as_str(), "-G" | "--generator" | "-O" | "--output-dir" | "-R" | "-D" | "-A" | "--allow" | "--diagnostic-format") { 2 } else { 1 };
+        }
+    }
 }
